@@ -17,6 +17,7 @@ import (
 func init() {
 	register(&Property{
 		ID:      "C03",
+		NeedGen: true, // dispatch-once and root-once read the materialised executors
 		Runtime: RuntimeCore,
 		Run:     runC03,
 		Explanation: "Gate structure of request admission, decided on every path: (dispatch-gated) every call of GraphExecutor.DispatchOperation in the module is edge-dominated by the 'error list is nil/empty' " +
